@@ -122,7 +122,7 @@ Proof.
   - pose proof (nodes_rel pay pay_reduce join K st HK T Hok Hsym g Hc) as Hrel.
     destruct (Forall2_in_l _ _ _ Hrel n Hn) as [[[lp i] rp] [Hin Hr]].
     now destruct (node_facts pay pay_reduce join K st HK T Hok Hsym n lp i rp Hr Hin) as (_ & _ & _ & F & _).
-  - exact (nodes_merge pay K st HK T LS Hok HL join join_sym pay_reduce g n Hc Hn).
+  - exact (nodes_merge pay K st HK T Hok Hsym join join_sym pay_reduce g n Hc Hn).
 Qed.
 Lemma node_step n p : In n g -> p + S K <= length (nd_seq n) ->
   step_ok (kmer_at K (nd_seq n) p) (kmer_at K (nd_seq n) (S p)) /\ wm (kmer_at K (nd_seq n) p) (kmer_at K (nd_seq n) (S p)).
